@@ -17,6 +17,6 @@ Steps:
 1. Read the anchored code in your worktree and find a subtle way to break the property.
 2. Make the change in the worktree (keep it small, 1-30 lines).
 3. Run the relevant existing tests to make sure they still pass, e.g. `cd /tmp/mut_{pid} && NO_ET=1 PYTHONPATH=/tmp/mut_{pid} /venv/bin/python -m pytest -q -p no:cacheprovider -x <the test files that cover the code you touched>` (the whole suite takes ~20 min; run at least every test file that exercises the touched module — find them with grep; 17 tests fail even on the unchanged tree because of the missing network: test_audit.py::*prov*/all, test_typing.py::test_typing_cast*/implicit_cast*, test_hash.py::test_hash_file, test_result.py::test_copyfile_workflow_conflicting_filenames, test_shell_fields.py::test_interface_template_*; ignore those). If a test fails because of your change, pick a different/subtler change.
-4. Write a demonstration program /tmp/mut_{pid}_out/demo.py that uses only pydra's public behaviour: run with `PYTHONPATH=<tree> /venv/bin/python demo.py` it must exit 0 (print PASS) on the UNCHANGED tree and exit 1 (print FAIL and what was observed) on your changed tree. Test both: the unchanged tree is available by `git -C /tmp/mut_{pid} stash` / `stash pop`, or compare against /repo READ-ONLY with PYTHONPATH=/repo.
+4. Write a demonstration program /tmp/mut_{pid}_out/demo.py that uses only pydra's public behaviour: run with `PYTHONPATH=<tree> /venv/bin/python demo.py` it must exit 0 (print PASS) on the UNCHANGED tree and exit 1 (print FAIL and what was observed) on your changed tree. Test both: the unchanged tree is /repo, READ-ONLY, via PYTHONPATH=/repo (do NOT use `git stash`: the stash is shared between all worktrees of the repository and other agents use it too).
 5. Save `git -C /tmp/mut_{pid} diff > /tmp/mut_{pid}_out/patch.diff` and write /tmp/mut_{pid}_out/notes.md: what the change is, why it breaks the property, what specific condition it needs to manifest, which tests you ran (with pass counts).
 Leave the worktree with the change applied. Clean up any temp dirs you created elsewhere. Final message: a 5-line summary (file changed, idea, what it needs to manifest, tests run, demo result on both trees).""")
